@@ -1,4 +1,7 @@
 import Lattigo.Gen.ModRed
+import Lattigo.Model.BRedConst
+import Mathlib.Tactic.Linarith
+import Mathlib.Tactic.Ring
 namespace Lattigo
 open Lattigo.Gen
 
@@ -13,6 +16,16 @@ theorem mont_low (q qinv alo : Nat) (h : MontConst q qinv) (ha : alo < W) :
     congr 1
     rw [Nat.mul_assoc, Nat.mul_comm qinv q]
   rw [this, h, Nat.mul_one, Nat.mod_eq_of_lt ha]
+
+theorem MontConst.pos {q qinv : Nat} (h : MontConst q qinv) : 0 < q := by
+  rcases Nat.eq_zero_or_pos q with h0 | h0
+  · subst h0; unfold MontConst at h; simp at h
+  · exact h0
+
+/-- `a + k₁ q = b + k₂ q → a ≡ b (mod q)`; the form in which all congruences below are derived. -/
+theorem mod_eq_of_add_mul_eq {a b k1 k2 q : Nat} (h : a + k1 * q = b + k2 * q) : a % q = b % q := by
+  have := congrArg (· % q) h
+  simpa [Nat.add_mul_mod_self_right] using this
 
 theorem MRedLazy_eq (x y q qinv : Nat) (hq : 2 * q ≤ W) (hm : MontConst q qinv)
     (hxy : x * y < q * W) :
@@ -34,3 +47,173 @@ theorem MRedLazy_eq (x y q qinv : Nat) (hq : 2 * q ≤ W) (hm : MontConst q qinv
     apply Nat.div_lt_of_lt_mul; exact hmq
   unfold W at *
   omega
+
+/-- **MRedLazy** (`ring/modular_reduction.go`): for `2q ≤ 2^64`, `q·qinv ≡ 1 (mod 2^64)` and
+`x·y < q·2^64`, the result `r` satisfies `r·2^64 ≡ x·y (mod q)` and `0 < r < 2q`.
+(The Go comment says `[0, 2q-1]`; the value `0` is in fact never produced.) -/
+theorem MRedLazy_spec (x y q qinv : Nat) (hq : 2 * q ≤ W) (hm : MontConst q qinv)
+    (hxy : x * y < q * W) :
+    (MRedLazy x y q qinv * W) % q = (x * y) % q
+    ∧ MRedLazy x y q qinv < 2 * q ∧ 0 < MRedLazy x y q qinv := by
+  obtain ⟨h, h2, h3⟩ := MRedLazy_eq x y q qinv hq hm hxy
+  refine ⟨?_, h2, h3⟩
+  exact mod_eq_of_add_mul_eq (k2 := W) (by rw [h]; ring)
+
+/-- **CRed**: for `a < 2q` (and `a` a uint64) `CRed a q = a mod q`. `a < W` is needed because the
+statement is over `Nat`: for `a ≥ 2^64` the `uint64` subtraction is not the integer one. -/
+theorem CRed_spec (a q : Nat) (hq : 0 < q) (ha : a < 2 * q) (haW : a < W) : CRed a q = a % q := by
+  unfold CRed
+  simp only [u64sub]
+  by_cases h : q ≤ a
+  · rw [if_pos (decide_eq_true h)]
+    rw [Nat.mod_eq_sub_mod h, Nat.mod_eq_of_lt (a := a - q) (by omega)]
+    have : q % W = q := Nat.mod_eq_of_lt (by omega)
+    rw [this]
+    unfold W at *; omega
+  · rw [if_neg (by simpa using h)]
+    rw [Nat.mod_eq_of_lt (by omega)]
+
+theorem CRed_lt (a q : Nat) (hq : 0 < q) (ha : a < 2 * q) (haW : a < W) : CRed a q < q := by
+  rw [CRed_spec a q hq ha haW]; exact Nat.mod_lt _ hq
+
+theorem MRed_eq_CRed (x y q c : Nat) : MRed x y q c = CRed (MRedLazy x y q c) q := rfl
+
+/-- **MRed**: same hypotheses as `MRedLazy_spec`; result `< q`. -/
+theorem MRed_spec (x y q qinv : Nat) (hq : 2 * q ≤ W) (hm : MontConst q qinv)
+    (hxy : x * y < q * W) :
+    (MRed x y q qinv * W) % q = (x * y) % q ∧ MRed x y q qinv < q := by
+  obtain ⟨h1, h2, _⟩ := MRedLazy_spec x y q qinv hq hm hxy
+  have hq0 := hm.pos
+  rw [MRed_eq_CRed, CRed_spec _ q hq0 h2 (by omega)]
+  exact ⟨by rw [Nat.mod_mul_mod]; exact h1, Nat.mod_lt _ hq0⟩
+
+/-! ### Barrett -/
+
+/-- The Barrett quotient estimate: with `u = ⌊N/q⌋` and `P ≤ N`, `t = ⌊P·u/N⌋` satisfies
+`t·q ≤ P < t·q + 2q`. Used with `N = 2^64` (BRedAdd) and `N = 2^128` (BRed, MForm). -/
+theorem barrett_quot (N q P : Nat) (hq : 0 < q) (hN : 0 < N) (hP : P ≤ N) :
+    (P * (N / q) / N) * q ≤ P ∧ P < (P * (N / q) / N) * q + 2 * q := by
+  have hu := Nat.div_add_mod N q
+  have hr := Nat.mod_lt N hq
+  generalize N / q = u at *
+  generalize N % q = r0 at *
+  have ht := Nat.div_add_mod (P * u) N
+  have hs := Nat.mod_lt (P * u) hN
+  generalize P * u / N = t at *
+  generalize hS : P * u % N = s at *
+  constructor
+  · apply Nat.le_of_mul_le_mul_left _ hN
+    nlinarith
+  · apply Nat.lt_of_mul_lt_mul_left (a := N)
+    nlinarith
+
+theorem brc_fst (q : Nat) (hq : 1 < q) : (brc q).1 = W / q := by
+  unfold brc
+  simp only
+  rw [Nat.div_div_eq_div_mul, Nat.mul_div_mul_right _ _ (by decide : 0 < W)]
+  exact Nat.mod_eq_of_lt (Nat.div_lt_self (by decide) hq)
+
+theorem brc_snd (q : Nat) : (brc q).2 = (W * W / q) % W := rfl
+
+theorem brc_lt (q : Nat) : (brc q).1 < W ∧ (brc q).2 < W :=
+  ⟨Nat.mod_lt _ (by decide), Nat.mod_lt _ (by decide)⟩
+
+/-- For `q ≥ 2` the two words are the base-`2^64` digits of `⌊2^128/q⌋`. -/
+theorem brc_combine (q : Nat) (hq : 1 < q) : (brc q).1 * W + (brc q).2 = W * W / q := by
+  have h1 : (brc q).1 = W * W / q / W := by
+    rw [brc_fst q hq, Nat.div_div_eq_div_mul, Nat.mul_div_mul_right _ _ (by decide : 0 < W)]
+  rw [h1, brc_snd, Nat.mul_comm]
+  exact Nat.div_add_mod _ _
+
+theorem BRedAddLazy_eq (x q : Nat) (hq : 1 < q) (hx : x < W) :
+    BRedAddLazy x q (brc q) + (x * (W / q) / W) * q = x ∧ BRedAddLazy x q (brc q) < 2 * q := by
+  unfold BRedAddLazy
+  simp only [mul64, u64sub, u64mul, brc_fst q hq]
+  obtain ⟨h1, h2⟩ := barrett_quot W q x (by omega) (by decide) (Nat.le_of_lt hx)
+  generalize x * (W / q) / W = t at *
+  have htq : t ≤ t * q := Nat.le_mul_of_pos_right t (by omega)
+  generalize hT : t * q = T at *
+  have ht : t % W = t := Nat.mod_eq_of_lt (by omega)
+  rw [ht, hT]
+  unfold W at *
+  omega
+
+/-- **BRedAddLazy**: `x mod q` up to one multiple of `q`, for every uint64 `x`; only `q ≥ 2` is
+needed (`GenBRedConstant 1` wraps to `[0,0]`). -/
+theorem BRedAddLazy_spec (x q : Nat) (hq : 1 < q) (hx : x < W) :
+    BRedAddLazy x q (brc q) % q = x % q ∧ BRedAddLazy x q (brc q) < 2 * q := by
+  obtain ⟨h1, h2⟩ := BRedAddLazy_eq x q hq hx
+  exact ⟨mod_eq_of_add_mul_eq (k2 := 0) (by rw [h1]; ring), h2⟩
+
+theorem BRedAdd_eq_CRed (a q : Nat) (c : Nat × Nat) : BRedAdd a q c = CRed (BRedAddLazy a q c) q := rfl
+
+/-- **BRedAdd**: `BRedAdd a q (GenBRedConstant q) = a mod q` for every uint64 `a`, every `q ≥ 2`. -/
+theorem BRedAdd_spec (a q : Nat) (hq : 1 < q) (ha : a < W) : BRedAdd a q (brc q) = a % q := by
+  obtain ⟨h1, h2⟩ := BRedAddLazy_spec a q hq ha
+  obtain ⟨h3, _⟩ := BRedAddLazy_eq a q hq ha
+  rw [BRedAdd_eq_CRed, CRed_spec _ q (by omega) h2 (by omega), h1]
+
+/-- Last step shared by `BRedLazy`/`MFormLazy`: `(P - t·q) mod 2^64` is the integer `P - T·q`
+as soon as `t ≡ T (mod 2^64)` and `0 ≤ P - T·q < 2q ≤ 2^64`. -/
+theorem bred_final (Plo P T q t : Nat) (ht : t = T % W) (hlo : Plo = P % W) (h1 : T * q ≤ P)
+    (h2 : P < T * q + 2 * q) (h2q : 2 * q ≤ W) :
+    u64sub Plo (u64mul t q) + T * q = P ∧ u64sub Plo (u64mul t q) < 2 * q := by
+  subst ht hlo
+  simp only [u64sub, u64mul, Nat.mod_mul_mod]
+  generalize T * q = X at *
+  unfold W at *
+  omega
+
+/-- The 128×128→high-128 partial-product schedule of `BRed` computes `⌊P·u / 2^128⌋ mod 2^64`
+exactly (`P = mhi·2^64 + mlo`, `u = uhi·2^64 + ulo`); products are atoms. -/
+theorem bred_quot_words (A B C D Pu : Nat) (h : Pu = A * W * W + (B + D) * W + C)
+    (hC : C < W * W) :
+    u64add (u64add (u64add (u64add (A % W) (B / W % W)) (add64 (B % W) (C / W % W) 0).2)
+        (D / W % W)) (add64 (D % W) (add64 (B % W) (C / W % W) 0).1 0).2
+      = Pu / (W * W) % W := by
+  simp only [u64add, add64]
+  unfold W at *
+  omega
+
+theorem BRedLazy_eq (x y q : Nat) (hq : 1 < q) (h2q : 2 * q ≤ W) (hx : x < W) (hy : y < W) :
+    BRedLazy x y q (brc q) + (x * y * (W * W / q) / (W * W)) * q = x * y
+    ∧ BRedLazy x y q (brc q) < 2 * q := by
+  have hP : x * y < W * W := Nat.mul_lt_mul'' hx hy
+  obtain ⟨h1, h2⟩ := barrett_quot (W * W) q (x * y) (by omega) (by decide) (Nat.le_of_lt hP)
+  unfold BRedLazy
+  simp only [mul64, u64mul]
+  refine bred_final _ _ _ _ _ ?_ rfl h1 h2 h2q
+  have hu := brc_combine q hq
+  obtain ⟨hu1, hu2⟩ := brc_lt q
+  generalize (brc q).1 = uhi at *
+  generalize (brc q).2 = ulo at *
+  generalize W * W / q = u at *
+  generalize x * y = P at *
+  have hmhi : P / W % W = P / W := Nat.mod_eq_of_lt (Nat.div_lt_of_lt_mul hP)
+  rw [hmhi]
+  have hPd := Nat.div_add_mod P W
+  have hm2 : P % W < W := Nat.mod_lt _ (by decide)
+  generalize P / W = mhi at *
+  generalize P % W = mlo at *
+  have hPu : P * u = mhi * uhi * W * W + (mlo * uhi + mhi * ulo) * W + mlo * ulo := by
+    rw [← hPd, ← hu]; ring
+  exact bred_quot_words _ _ _ _ _ hPu (Nat.mul_lt_mul'' hm2 hu2)
+
+/-- **BRedLazy**: for `2 ≤ q ≤ 2^63` and ALL uint64 `x, y` the result is `≡ x·y (mod q)` and `< 2q`.
+`2q ≤ 2^64` is what makes `x·y - t·q ∈ [0,2q)` recoverable from its low word. -/
+theorem BRedLazy_spec (x y q : Nat) (hq : 1 < q) (h2q : 2 * q ≤ W) (hx : x < W) (hy : y < W) :
+    BRedLazy x y q (brc q) % q = (x * y) % q ∧ BRedLazy x y q (brc q) < 2 * q := by
+  obtain ⟨h1, h2⟩ := BRedLazy_eq x y q hq h2q hx hy
+  exact ⟨mod_eq_of_add_mul_eq (k2 := 0) (by rw [h1]; ring), h2⟩
+
+theorem BRed_eq_CRed (x y q : Nat) (c : Nat × Nat) : BRed x y q c = CRed (BRedLazy x y q c) q := rfl
+
+/-- **BRed**: `BRed x y q (GenBRedConstant q) = x·y mod q` for ALL uint64 `x, y`, `2 ≤ q ≤ 2^63`. -/
+theorem BRed_spec (x y q : Nat) (hq : 1 < q) (h2q : 2 * q ≤ W) (hx : x < W) (hy : y < W) :
+    BRed x y q (brc q) = (x * y) % q := by
+  obtain ⟨h1, h2⟩ := BRedLazy_spec x y q hq h2q hx hy
+  rw [BRed_eq_CRed, CRed_spec _ q (by omega) h2 (by omega), h1]
+
+theorem BRed_lt (x y q : Nat) (hq : 1 < q) (h2q : 2 * q ≤ W) (hx : x < W) (hy : y < W) :
+    BRed x y q (brc q) < q := by
+  rw [BRed_spec x y q hq h2q hx hy]; exact Nat.mod_lt _ (by omega)
